@@ -300,9 +300,10 @@ func (b *Batcher) trySendBatchAndUnlock(batch *Batch) {
 	batch.seq = b.outSeq
 	b.outSeq++
 	b.batch = nil
-	b.mu.Unlock()
-
+	// send while holding mu: Stop closes fullBatches under mu, and the channel has room for every batch
+	// (its capacity equals the number of batches), so the send never blocks
 	b.fullBatches <- batch
+	b.mu.Unlock()
 }
 
 func (b *Batcher) getBatch() *Batch {
